@@ -1,6 +1,6 @@
 (* Props_C10.v — C10: incarnation discipline, self-refutation and reaction to one's own death. *)
 From Foca Require Import Laws MembersM FocaM WireM L_Members L_MembersInv L_Join Inv L_Wire L_Discard L_Mech L_IncMono.
-From Foca Require Import BcastM L_Evidence L_IncHist L_RenewDown.
+From Foca Require Import BcastM L_Evidence L_IncHist L_RenewDown L_RoundPing Concrete.
 
 Section C10.
 Context {Id Addr : Type} {IO : IdOps Id Addr} {CO : CodecOps Id} {HO : HandlerOps Id}.
@@ -137,6 +137,20 @@ Proof. exact (attempt_rejoin_eq rnd s new). Qed.
 
 End C10.
 
+(* non-vacuity: changing identity while connected to two members: Down(old identity) entered the backlog with
+   max_transmissions = 10 and went out on the two gossip datagrams of the call - 8 left *)
+Definition ex10_cfg : config := mkConfig 1500000000 500000000 3 10 3000000000 86400000000000 1400 false None None None.
+Definition ex10_o : oracle := fun _ r => match r with RShuffle _ => [0; 1; 2; 3] | RChoose _ => [0] | RRange _ => [0] | RTie _ _ => [] end.
+Definition ex10_f0 : @foca cid N cid_handler := foca_init (mkCid 1 0 0 0) ex10_cfg (mkChst 0 255 []).
+Definition ex10_f : @foca cid N cid_handler :=
+  fst (fst (fst (step ex10_o ex10_f0 (IApplyMany [mkMember (mkCid 2 0 0 0) 0 Alive; mkMember (mkCid 3 0 0 0) 0 Alive] false)))).
+Example C10_renewal_example :
+  let '(f', es, r, _) := step ex10_o ex10_f (IChangeIdentity (mkCid 1 1 0 0)) in
+  r = Done
+  /\ map (fun e => (e_key e, e_tx e, e_data e)) (updates f') = [(1, 8, enc_mem (mkMember (mkCid 1 0 0 0) 0 Down))]
+  /\ length (dsts es) = 2%nat.
+Proof. vm_compute. repeat split; auto. Qed.
+
 Print Assumptions C10_monotone_call.
 Print Assumptions C10_incarnation_is_u16.
 Print Assumptions C10_starts_at_zero.
@@ -151,3 +165,4 @@ Print Assumptions C10_no_identity_api_meaning.
 Print Assumptions C10_renewed_state_terms.
 Print Assumptions C10_identity_change_declares_old_identity_down.
 Print Assumptions C10_renewal_gossips_old_identity_as_down.
+Print Assumptions C10_renewal_example.
